@@ -5,7 +5,7 @@ From Coq Require Import Strings.Byte.
 From WH Require Import lib.Bytes lib.EvmAbi gen.Extracted gen.ExtractedWiring gen.ExtractedP2P model.Vaa model.Processor model.ProcSpec model.System
      model.ReobsLoop model.Closure.
 From WH Require Import proofs.ProcC02Proofs proofs.SystemProofs proofs.SystemLiveProofs proofs.ReobsLoopBase
-     proofs.ClosureProofs1 proofs.ClosureProofs2 proofs.ClosureProofs6 proofs.ClosureProofsEx0.
+     proofs.ClosureProofs1 proofs.ClosureProofs2 proofs.ClosureProofs3 proofs.ClosureProofs6 proofs.ClosureProofs8 proofs.ClosureProofsEx0.
 From WH Require model.EvmLog proofs.EvmLogProofs.
 Import ListNotations.
 Open Scope Z_scope.
@@ -63,6 +63,50 @@ Proof.
   - eexists. eexists. split; [vm_compute; reflexivity|]. split; vm_compute; reflexivity.
   - vm_compute. reflexivity.
   - vm_compute. reflexivity.
+Qed.
+
+(* ---------------------------------------------------------------- 1b. the same recovery over a window WITH cleanup ticks at node 0 *)
+(* clock 10 s: request, pump, the watcher answers, the processor signs; a cleanup step (nothing due); clock 45 s: a cleanup step that
+   SETTLES the entry; node 1's observation is delivered; clock 350 s: a cleanup step that RETRIES (re-sends the observation, posts a
+   re-observation request of its own, which the next pump publishes); the own signature loops back: published *)
+Definition qy_s : Z := 1000000000.
+Definition qy_win : list lnop :=
+  [XLocal 0 (LClock (10 * qy_s)); XLocal 0 (LAdmin qx_req); XLocal 0 LPump; XLocal 0 (LWatch 2); XLocal 0 LCleanup; XLocal 0 (LClock (45 * qy_s));
+   XLocal 0 LCleanup; XDeliver 0 [x05] 0; XLocal 0 (LClock (350 * qy_s)); XLocal 0 LCleanup; XLocal 0 LPump; XLocal 0 (LEnv (VLoop 0))].
+
+Lemma ex_lnet_recovery_ticks :
+  let stp := fun n x => fst (qx_lnstep n x) in
+  let n0 := fst (qx_lnrun (lninit 2) qx_pre) in
+  let n1 := fst (qx_lnrun n0 qy_win) in
+  let h := Processor.dg qx_keccak (vaa_of_message 0 qx_msg) in
+  Forall lnop_wf qy_win /\
+  (forall x, In x qy_win -> ltarget x = 0%nat -> lsetgs_free x = true) /\
+  lnet_ticks_keep qx_recover qx_keccak 1 (repeat x00 32) (fun _ => None) (fun _ => None) (fun _ => []) false qx_owns qx_signs qx_selfs qx_watches 0 h n0 qy_win /\
+  happens stp (lev_reobserved qx_recover qx_keccak 1 (repeat x00 32) qx_owns qx_signs qx_watches 0 qx_msg) n0 qy_win /\
+  happens stp (lev_delivered qx_owns qx_signs qx_selfs 0 1 h) n0 qy_win /\
+  (forall st, nth_error (x_nodes n1) 0 = Some st -> forall o, In o (loopq (l_proc st)) -> o_hash o <> h) /\
+  (exists st e, nth_error (x_nodes n1) 0 = Some st /\ alookup h (agg (l_proc st)) = Some e /\ submitted e = true /\ settled e = true /\ retries e = 1) /\
+  existsb (fun w => match w with WVaa _ => true | _ => false end) (x_pool n1) = true /\
+  (* the re-observation request of node 0 itself (posted by the retrying tick) is on the wire, next to the one that started the recovery *)
+  length (filter (fun w => match w with WReq _ _ _ => true | _ => false end) (x_pool n1)) = 2%nat.
+Proof.
+  cbv zeta.
+  split; [repeat (constructor; [exact I|]); constructor|].
+  split; [intros x Hx _; repeat (destruct Hx as [<-|Hx]; [reflexivity|]); destruct Hx|].
+  split.
+  { unfold lnet_ticks_keep, qy_win. cbn [always].
+    repeat apply conj; try (intros X; discriminate X); try exact I;
+      intros _ st Hst; vm_compute in Hst; inversion Hst; subst st; intros e He X; vm_compute in He; inversion He; subst e; vm_compute in X; discriminate X. }
+  split.
+  { unfold qy_win. cbn [happens]. right. right. right. left.
+    eexists 2, _, _, qx_req, []. split; [reflexivity|]. split; [vm_compute; reflexivity|]. split; [vm_compute; reflexivity|].
+    split; [reflexivity|]. split; [reflexivity|]. vm_compute. reflexivity. }
+  split.
+  { unfold qy_win. cbn [happens]. do 7 right. left.
+    eexists [x05], 0%nat, [x07], _. split; [reflexivity|]. split; [reflexivity|]. split; vm_compute; reflexivity. }
+  split; [intros st H; vm_compute in H; inversion H; subst st; intros o []|].
+  split; [eexists; eexists; split; [vm_compute; reflexivity|]; repeat split; vm_compute; reflexivity|].
+  split; vm_compute; reflexivity.
 Qed.
 
 (* ---------------------------------------------------------------- 2. the EVM watcher inside the loop *)
